@@ -224,11 +224,69 @@ def finite_grid(reg):
     return out
 
 
+def native_tables(oid):
+    """the same relation evaluated with the real numpy arrays of the imported module"""
+    import numpy as np
+    from pyvc.native import repo_module
+    d = repo_module("pyerrors.dirac")
+    g = [d.gammaX, d.gammaY, d.gammaZ, d.gammaT]
+    ix = {"X": 0, "Y": 1, "Z": 2, "T": 3}
+    one = np.eye(4)
+    kind, _, rest = oid.partition(".")
+    if kind == "clifford":
+        a, b = ix[rest[0]], ix[rest[1]]
+        lhs, rhs = g[a] @ g[b] + g[b] @ g[a], 2 * one * (a == b)
+    elif kind == "hermitian":
+        m = d.gamma5 if rest == "gamma5" else g[ix[rest[-1]]]
+        lhs, rhs = m.conj().T, m
+    elif kind == "gamma-array":
+        lhs, rhs = d.gamma[int(rest)], g[int(rest)]
+    elif oid == "gamma5.product":
+        lhs, rhs = d.gamma5, g[0] @ g[1] @ g[2] @ g[3]
+    elif oid.startswith("gamma5.anticommutes"):
+        a = ix[oid[-1]]
+        lhs, rhs = d.gamma5 @ g[a] + g[a] @ d.gamma5, 0 * one
+    elif oid == "identity":
+        lhs, rhs = d.identity, one
+    elif kind == "grid":
+        tag = rest
+        if tag in GRID_TAGS:
+            def spec(tag):
+                if tag == "Identity":
+                    return one
+                if tag == "Gamma5":
+                    return d.gamma5
+                if tag.startswith("Gamma") and tag.endswith("Gamma5"):
+                    return g[ix[tag[5]]] @ d.gamma5
+                if tag.startswith("Gamma"):
+                    return g[ix[tag[5]]]
+                a, b = ix[tag[5]], ix[tag[6]]
+                return 0.5 * (g[a] @ g[b] - g[b] @ g[a])
+            try:
+                lhs, rhs = d.Grid_gamma(tag), spec(tag)
+            except Exception as e:
+                return True, "Grid_gamma(%r) raises %s" % (tag, type(e).__name__)
+        elif tag == "unknown-tag-raises-ValueError":
+            try:
+                d.Grid_gamma("NoSuchTag")
+                return True, "Grid_gamma('NoSuchTag') does not raise"
+            except ValueError:
+                return False, "Grid_gamma('NoSuchTag') raises ValueError"
+            except Exception as e:
+                return True, "Grid_gamma('NoSuchTag') raises %s" % type(e).__name__
+        else:
+            return False, "no native form"
+    else:
+        return False, "no native form"
+    bad = not np.array_equal(np.asarray(lhs), np.asarray(rhs))
+    return bad, "%s: lhs=%s rhs=%s" % (oid, np.asarray(lhs).tolist(), np.asarray(rhs).tolist())
+
+
 contract(REL + "::Grid_gamma", name=REL + "::<tables>", props=["C20"], finite=finite_tables, locate=lambda mod: mod.tree,
-         native_ok=False, crosscheck=False, refute=False,
+         native_ok=False, crosscheck=False, refute=False, finite_native=native_tables,
          note="module-level matrices read from the AST as exact Gaussian rationals; Clifford algebra, hermiticity, gamma5")
 contract(REL + "::Grid_gamma", name=REL + "::Grid_gamma[table]", props=["C20"], finite=finite_grid, native_ok=False, crosscheck=False,
-         refute=False, note="every branch of the if/elif chain evaluated exactly against the structure its tag names")
+         refute=False, finite_native=native_tables, note="every branch of the if/elif chain evaluated exactly against the structure its tag names")
 
 
 # ---------------------------------------------------------------------------------------------------
